@@ -12,7 +12,7 @@ MODEL_TARGETS = ['theories/Model/Cache.vo']
 MODEL_NEEDS_IMPL = True
 SHARD = 6
 SIZES = {'quick': 150, 'thorough': 2500, 'search': 500}
-SUBSTREAMS = ['c05_shared']      # goals with the shared-resource reload feature: a per-solution aggregate cached inside per-route state
+SUBSTREAMS = ['c05_shared', 'c05_feat']      # goals with the shared-resource reload feature: a per-solution aggregate cached inside per-route state
 RULE = ('cases: the operator histories of C04 (problem built through the core API + 6-18 calls of the real ruin / recreate / local / '
         'search operators with a scripted Random; 1 step in 5 runs under a counting quota that is reached from its k-th poll '
         'on, so the step is interrupted after some insertions; some jobs start pending in `ignored`); every third history '
@@ -154,6 +154,10 @@ def oracle(c, impl):
                         'what': 'state %d (after %s), vehicle %d: cached %s differs from recomputation from the tour' % (k, op, v, kinds)})
         for kind in O.solution_diffs(c, impl['names'], d):
             out.append({'class': 'solution-' + kind, 'what': 'state %d (after %s): %s differs from the rebuilt context' % (k, op, kind)})
+        # "two solutions with identical tours compare equal": GoalContext::total_order(live, rebuilt from the same tours)
+        if d['rebuilt'].get('cmp') not in (None, 'Equal') and d['fit'] == d['rebuilt']['fit']:
+            out.append({'class': 'identical-tours-do-not-compare-equal',
+                        'what': 'state %d (after %s): all objective values agree but total_order(live, rebuilt) = %s' % (k, op, d['rebuilt']['cmp'])})
         if any(r['stale'] for r in d['routes']):
             out.append({'class': 'stale-flag-at-handover-after-' + op, 'what': 'state %d: a tour is handed over with the stale flag set' % k})
     compat = {j['id']: j.get('compat') for j in c['jobs']}
@@ -230,8 +234,59 @@ MANIFEST_TEXT = ('Machine-checked proof (Coq) over a model of the stale-flag pro
                  'objective values are a function of the tours. Tied to /repo on every run: cached state digests and schedules of '
                  'every tour after every real operator call and every observed insertion are compared with a context rebuilt from '
                  'the bare tours, and the rebuilt values with the Coq recomputation (schedules, latest arrivals, waiting, totals, load '
-                 'profiles, tags).')
+                 'profiles, tags). Sub-stream c05_feat (Model/CacheF.v): the remaining caching features - tour limits, recharge, '
+                 'simple reload, tour order, the four work balance objectives, fast service - with handlers that READ OTHER CACHED '
+                 'FIELDS (goal order matters) and per-solution aggregates: for any table of sound handlers every key / aggregate of '
+                 'the computed `good` sets equals its function of the tours after accept_route_state / every insertion / '
+                 'accept_solution_state, objective values are a function of the tours (full modelled goal); machine-checked '
+                 'counterexamples for three defects of the work balance feature (C05-F3 per-route value never refreshed at '
+                 'hand-over, C05-F4 values / objective computed before the state they read is refreshed, C05-F5 aggregates count a '
+                 'job-less tour removed after the refresh). The feature table of the Coq instantiation is compared on every run '
+                 'with the handlers / state keys extracted from the `impl FeatureState` blocks of the source.')
 MANIFEST_NOTE = ('Trusted: Coq kernel+vm_compute; the two cfg-gated hooks; harness rebuild; generators. The feature table '
                  '(which handler recomputes which field) is instantiated by reading the FeatureState impls, validated by the digests. '
-                 'Modelled not verified: conditional-job promotion loop, reload intervals, breaks, recharge, hierarchical areas.')
+                 'Sub-stream c05_feat additionally trusts: the keyless rendering of the digests (multiset comparison), the Python '
+                 'replica of get_cv_safe, the regex reading of the Rust source in tools/props/c05_table.py with its key map. '
+                 'Not modelled: conditional-job promotion loop beyond CacheX.v, hierarchical areas (medoid index), tour compactness '
+                 '(only live vs rebuilt), known-edge footprint cost.')
 MANIFEST_TECHNIQUE = 'Coq proof (protocol invariant) + vm_compute recomputation model vs digests of the real cached state'
+
+
+# ---------------------------------------------------------------- the tie between the feature table of the Coq instantiation and the Rust source
+_EXTRA = {}
+
+
+def extra_checks(ctx):
+    """tools/props/c05_table.py: the handlers / written state keys of every `impl FeatureState for X`, extracted from the Rust
+    source of the tree under test, against the rows Coq prints for `table_rows` (Model/CacheF.v).  A difference means the
+    correspondence between the table the theorems are instantiated with and the code is broken: reported like a failed
+    correspondence (VIOLATION ... no-failing-input-found), never silently."""
+    import os
+    import subprocess
+    import coqterm
+    from props import c05_table as T
+    wd = ctx['wd']
+    coq = os.environ.get('VERIF_COQ', os.path.join(os.path.dirname(os.path.dirname(os.path.dirname(os.path.abspath(__file__)))), 'coq'))
+    f = os.path.join(wd, 'table_rows.v')
+    with open(f, 'w') as fh:
+        fh.write('From VRP Require Import Base.Tac Model.Core Model.Cache Model.CacheF.\nSet Printing Width 1000000.\n'
+                 'Eval vm_compute in table_rows.\n')
+    p = subprocess.run(['timeout', '300', 'coqc', '-noglob', '-Q', os.path.join(coq, 'theories'), 'VRP', '-w', '-all', f],
+                       cwd=wd, stdout=subprocess.PIPE, stderr=subprocess.STDOUT, text=True)
+    if p.returncode != 0:
+        diffs = ['evaluation of table_rows failed: ' + p.stdout[-800:]]
+    else:
+        rows = coqterm.parse_eval_output(p.stdout)[0]
+        diffs = T.compare(ctx['repo'], rows)
+        _EXTRA['feature_state_impls_compared_with_the_coq_table'] = len(T.table(ctx['repo']))
+    if diffs:
+        rp = ctx['write_replay'](ID, {'property': ID, 'kind': 'no-failing-input-found',
+                                      'broken': ['feature table of the Coq instantiation != FeatureState impls of the source: ' + d for d in diffs],
+                                      'note': 'tools/props/c05_table.py: the handlers / state keys extracted from the Rust source differ from '
+                                              'the table the C05 theorems are instantiated with (Model/CacheF.v table_rows, HAND_ROWS)',
+                                      'seed': ctx['stats'].get('seed')})
+        ctx['verdict'].violation(rp, nofail=True)
+
+
+def extra_coverage():
+    return dict(_EXTRA)
